@@ -31,10 +31,15 @@ type workerOut struct {
 	Complete    bool           `json:"complete"`
 	Cap         string         `json:"cap,omitempty"`
 	Violation   string         `json:"violation,omitempty"`
-	Schedule    []int          `json:"schedule,omitempty"`
-	Children    [][]int        `json:"children,omitempty"`
-	Labels      []string       `json:"schedule_labels,omitempty"`
-	WallS       float64        `json:"wall_s"`
+	Known       map[string]struct {
+		Count    int    `json:"executions"`
+		Message  string `json:"message"`
+		Schedule []int  `json:"first_schedule"`
+	} `json:"known_classes,omitempty"`
+	Schedule []int    `json:"schedule,omitempty"`
+	Children [][]int  `json:"children,omitempty"`
+	Labels   []string `json:"schedule_labels,omitempty"`
+	WallS    float64  `json:"wall_s"`
 }
 
 type CaseT struct {
@@ -45,7 +50,9 @@ type CaseT struct {
 	Race        string   `json:"race_report,omitempty"`
 }
 
-func (c CaseT) key() string { return fmt.Sprintf("%s:%s:%s", c.Scenario, c.Granularity, rle(c.Schedule)) }
+func (c CaseT) key() string {
+	return fmt.Sprintf("%s:%s:%s", c.Scenario, c.Granularity, rle(c.Schedule))
+}
 
 // rle prints a schedule with runs of equal choices collapsed ("0x140 1 0x3").
 func rle(s []int) string {
@@ -207,6 +214,12 @@ func RunSchedules(r *fw.Run, scs []scen.Scenario, cfgs []Config, perJob, total t
 		mu.Unlock()
 		for c, n := range o.Outcomes {
 			r.OutcomeN(j.sc+" | "+c, int64(n))
+		}
+		for cls, k := range o.Known {
+			c := CaseT{Scenario: j.sc, Granularity: j.gran, Schedule: k.Schedule}
+			for i := 0; i < k.Count; i++ {
+				r.Violation(cls, fmt.Sprintf("scenario %s (%s granularity), schedule %s: %s", j.sc, j.gran, rle(k.Schedule), k.Message), c)
+			}
 		}
 		if o.Violation != "" {
 			c := CaseT{Scenario: j.sc, Granularity: j.gran, Schedule: o.Schedule, Labels: o.Labels}
@@ -449,6 +462,10 @@ func Replay(r *fw.Run, raw json.RawMessage) {
 	r.Sample(c)
 	if err != nil || json.Unmarshal(bytes.TrimSpace(out), &o) != nil {
 		r.Violation(c.key(), fmt.Sprintf("replay failed: %v %s", err, out), c)
+		return
+	}
+	if cls, msg, ok := strings.Cut(o.Violation, "|"); ok && strings.HasPrefix(cls, "class:") {
+		r.Violation(cls, msg, c) // a recorded finding class (KNOWN-FINDING if listed in known_findings.txt)
 		return
 	}
 	if o.Violation != "" {
